@@ -53,6 +53,12 @@ def _loop_literals(f: Func, var: str, inside: ast.AST) -> set[str]:
         for tg, it in gens:
             names = [x.id for x in ast.walk(tg) if isinstance(x, ast.Name)]
             if var in names:
+                if isinstance(it, ast.Name) and it.id not in {x.id for x in ast.walk(f.node) if isinstance(x, ast.Name) and isinstance(x.ctx, ast.Store)}:
+                    # a module-level constant tuple / list of names (_CHAINS = ("core", "block", "inline"))
+                    d_ = f.module.defs.get(it.id)
+                    v_ = getattr(d_, "value", None)
+                    if isinstance(v_, (ast.List, ast.Tuple, ast.Set)):
+                        it = v_
                 if isinstance(it, (ast.List, ast.Tuple, ast.Set)) and all(isinstance(e, ast.Constant) and isinstance(e.value, str) for e in it.elts):
                     return {e.value for e in it.elts}
                 # for chain, rules in snapshot.items(): ... if chain != "inline2"
@@ -271,8 +277,14 @@ class _Ops:
                 if isinstance(nm, ast.Constant) and nm.value in RULER_OPS:
                     target, op = fn.args[0], nm.value
             elif isinstance(fn, ast.Name):
-                # switch = ruler.enable if enabled else ruler.disable
-                for d in self._defs(f, fn.id):
+                # switch = ruler.enable if enabled else ruler.disable   (the definitions that reach this call)
+                from ..reach import Reaching
+                rdc = self.__dict__.setdefault("_rd", {})
+                if f not in rdc:
+                    rdc[f] = Reaching(self.c.cfg(f))
+                reach_defs = [d_.value for d_ in rdc[f].at_ast(call, fn.id) if d_.kind == "assign" and d_.value is not None]
+                multi = []
+                for d in (reach_defs or self._defs(f, fn.id)):
                     dd = d
                     if isinstance(dd, ast.IfExp):
                         t = self._const(dd.test, binds)
@@ -288,6 +300,14 @@ class _Ops:
                                 nm = nm.body if t.value else nm.orelse
                         if isinstance(nm, ast.Constant) and nm.value in RULER_OPS:
                             target, op = dd.args[0], nm.value
+                    if target is not None and op is not None:
+                        multi.append((target, op))
+                if len(multi) > 1:
+                    a0 = self._const(call.args[0], binds) if call.args else None
+                    for (tg_, op_) in multi:
+                        for rname in sorted(self.rulers(f, tg_, binds, call)):
+                            self.out.append((rname, op_, U(a0) if a0 is not None else "", call, f))
+                    continue
             if target is None or op is None:
                 continue
             rs = self.rulers(f, target, binds, call)
